@@ -246,6 +246,12 @@ class Ken3(Obligation):
                 gc2 = gc2 + gk * gk
             ca = cosa(cx)
             cx.lemma('|grad cos(alpha)|^2 l_op^2 = 1 - cos^2(alpha)', gc2 * lop2, 1 - ca * ca)
+            # cos(alpha) is homogeneous of degree 0 in the point: its radial derivative vanishes (the angular and the radial
+            # part of grad bt are orthogonal)
+            rad = 0
+            for k, x in zip(COORDS[:g], xs):
+                rad = rad + x * cx.d(cosa, k)
+            cx.lemma('x . grad cos(alpha) = 0', rad, 0)
         cx.eq('eikonal |grad bt|^2=1/D^2', grad2(cx, f, self.geom) * D * D, 1, tol=1e-4)
 
     def _arrival(self, cx, bt, td, D, R, de, ee, dd):
